@@ -9,7 +9,8 @@ StateView == <<queued, tree, known, store, bad, cache, pending, faults>>
 End == [op |-> "End"]
 Finish == Len(hist) = Depth /\ hist' = Append(hist, End)
           /\ UNCHANGED <<queued, tree, known, store, bad, cache, pending, faults, last>>
-ExportFinished == (Len(hist) = Depth + 1) => PrintT(<<"BEH", ToJson([cap |-> IF NoCache THEN -1 ELSE Cap, steps |-> SubSeq(hist, 1, Depth)])>>)
+ExportFinished == (Len(hist) = Depth + 1) => PrintT(<<"BEH", ToJson([cap |-> IF NoCache THEN -1 ELSE Cap, steps |-> SubSeq(hist, 1, Depth),
+                                                                   cold |-> [i \in 1..Len(tree) |-> ServableCold(i)]])>>)
 SimNext ==
   \/ Finish
   \/ /\ Len(hist) < Depth
@@ -27,7 +28,8 @@ SimNext ==
                                         IF RandomElement(1..6) = 1 THEN (Read(i, v, "findError") \/ Read(i, v, "none")) ELSE Read(i, v, "none")
                                 ELSE \E c \in {RandomElement(Certs)} : Submit(c, "none")
           [] kind \in 16..18 -> IF Len(pending) > 0 THEN CacheSetFires ELSE \E c \in {RandomElement(Certs)} : Submit(c, "none")
-          [] kind = 19 -> IF store # {} /\ faults < MaxFaults THEN \E h \in {RandomElement(store)} : DropRow(h)
+          [] kind = 19 -> IF faults < MaxFaults /\ RandomElement(1..2) = 1 THEN Restart
+                          ELSE IF store # {} /\ faults < MaxFaults THEN \E h \in {RandomElement(store)} : DropRow(h)
                           ELSE \E c \in {RandomElement(Certs)} : Submit(c, "none")
           [] OTHER -> IF \E h \in store : bad[h] = "ok" /\ faults < MaxFaults
                       THEN \E h \in {RandomElement({x \in store : bad[x] = "ok"})}, k \in {RandomElement(CorruptClasses)} : Corrupt(h, k)
